@@ -36,6 +36,11 @@ type Delivery struct {
 	// Hold: another connection holds a row lock while this delivery runs ("undo": the branch's undo_log row, as a
 	// concurrent delivery of the same rollback does; "row": a business row the branch wrote); released afterwards
 	Hold string `json:"hold,omitempty"`
+	// ReadOn: the Read-th query of the rollback transaction delivers ReadRows rows and then breaks off
+	// (Rows.Next returns an error; the connection stays usable)
+	ReadOn   bool `json:"read_on,omitempty"`
+	Read     int  `json:"read,omitempty"`
+	ReadRows int  `json:"read_rows,omitempty"`
 }
 
 // Plan is a generated case before it is turned into an engine scenario.
@@ -55,13 +60,18 @@ type Plan struct {
 	Marker      bool             `json:"marker,omitempty"`       // deliver the rollback of branch 0 between its registration and its flush
 	MarkerN     int              `json:"marker_n,omitempty"`     // ... that many times (1..3)
 	ReportFails bool             `json:"report_fails,omitempty"` // marker stream: every BranchReport of the late phase one fails (transport)
+	// HookWrite: a foreign write attempted right after the first validation query of the first delivery, i.e. between
+	// the SELECT .. FOR UPDATE and the compensating statement of the same rollback transaction
+	HookWrite *Foreign `json:"hook_write,omitempty"`
 }
 
 var names = []string{"ann", "bob", "cy", "dee", "eve", "flo", "gus", "hal"}
 
 func genTable(r *hutil.Rng, name string) *Table {
 	t := &Table{Name: name}
-	switch r.Intn(8) {
+	switch r.Intn(10) {
+	case 8, 9: // unsigned / narrow integer keys at the boundaries of their widths
+		t.Keys = []Col{{Name: "id", Typ: []string{"INT UNSIGNED", "SMALLINT UNSIGNED", "TINYINT UNSIGNED", "SMALLINT"}[r.Intn(4)]}}
 	case 6, 7: // two character key columns: joined key texts that collide unless the separator is unambiguous
 		t.Keys = []Col{{Name: "k1", Typ: "VARCHAR"}, {Name: "k2", Typ: "VARCHAR"}}
 	case 0: // auto-increment single key
@@ -81,7 +91,8 @@ func genTable(r *hutil.Rng, name string) *Table {
 	for i := 0; i < n; i++ {
 		c := Col{Name: fmt.Sprintf("c%d", i+1)}
 		c.Typ = []string{"INT", "BIGINT", "DOUBLE", "TINYINT", "VARCHAR", "VARCHAR", "DECIMAL", "DATETIME", "DATE", "TIMESTAMP",
-			"CHAR", "TEXT", "VARBINARY", "BLOB", "FLOAT", "INT", "VARCHAR", "BIGINT"}[r.Intn(18)]
+			"CHAR", "TEXT", "VARBINARY", "BLOB", "FLOAT", "INT", "VARCHAR", "BIGINT",
+			"TINYINT UNSIGNED", "SMALLINT", "SMALLINT UNSIGNED", "INT UNSIGNED", "DOUBLE", "DOUBLE", "FLOAT", "BIGINT"}[r.Intn(26)]
 		c.Nullable = r.Chance(1, 2)
 		t.Cols = append(t.Cols, c)
 	}
@@ -129,6 +140,13 @@ func genVal(r *hutil.Rng, c Col) Val {
 			return vFloat(doubles[r.Intn(len(doubles))])
 		}
 		return vFloat(float64(r.Intn(4000)-1000) / 8)
+	case "TINYINT UNSIGNED", "SMALLINT", "SMALLINT UNSIGNED", "INT UNSIGNED", "INT", "TINYINT":
+		if b := intBounds[c.Typ]; r.Chance(1, 2) {
+			return vInt(b[r.Intn(len(b))])
+		}
+		if strings.HasSuffix(c.Typ, "UNSIGNED") || c.Typ == "TINYINT" {
+			return vInt(int64(r.Intn(100)))
+		}
 	case "BIGINT":
 		if r.Chance(1, 4) { // beyond the integers a float64 can tell apart
 			return vInt([]int64{1 << 53, 1 << 60, 1 << 62, -(1 << 55)}[r.Intn(4)] + int64(r.Intn(4)))
@@ -173,6 +191,16 @@ func nearVal(r *hutil.Rng, c Col, v Val) (Val, bool) {
 	return v, false
 }
 
+// the values at which a width's sign bit / range ends
+var intBounds = map[string][]int64{
+	"TINYINT":           {-128, -127, 126, 127, 0},
+	"TINYINT UNSIGNED":  {0, 127, 128, 129, 254, 255},
+	"SMALLINT":          {-32768, -32767, 32766, 32767, 128, -129},
+	"SMALLINT UNSIGNED": {0, 32767, 32768, 32769, 65534, 65535, 255, 256},
+	"INT":               {-2147483648, -2147483647, 2147483646, 2147483647, 32768, -32769, 65536},
+	"INT UNSIGNED":      {0, 2147483647, 2147483648, 2147483649, 4294967294, 4294967295, 65535, 65536},
+}
+
 // pairs of character keys whose joined texts collide under a naive separator
 var keyPairs = [][2]string{{"a", "b_c"}, {"a_b", "c"}, {"x", "y_##$$_z"}, {"x_##$$_y", "z"}, {"p,q", "r"}, {"p", "q,r"}, {"eu", "west_db"}, {"eu_west", "db"}}
 
@@ -181,6 +209,19 @@ func keyOf(t *Table, i int) []Val {
 	var k []Val
 	if len(t.Keys) == 2 && t.Keys[0].Typ == "VARCHAR" && t.Keys[1].Typ == "VARCHAR" && i >= 1 && i <= len(keyPairs) {
 		return []Val{vStr(keyPairs[i-1][0]), vStr(keyPairs[i-1][1])}
+	}
+	if _, ok := intBounds[t.Keys[0].Typ]; ok && len(t.Keys) == 1 && t.Keys[0].Typ != "INT" {
+		// keys 1.. run through boundary values first, then count on with small values (distinct from them)
+		pos := map[string][]int64{
+			"INT UNSIGNED":      {2147483648, 2147483647, 4294967295, 2147483649, 65536, 4294967294},
+			"SMALLINT UNSIGNED": {32768, 32767, 65535, 32769, 256, 65534},
+			"TINYINT UNSIGNED":  {128, 127, 255, 129, 254, 126},
+			"SMALLINT":          {-32768, 32767, -32767, 32766, -129, 128},
+		}[t.Keys[0].Typ]
+		if i >= 1 && i <= len(pos) {
+			return []Val{vInt(pos[i-1])}
+		}
+		return []Val{vInt(int64(i) + 1)}
 	}
 	for j, c := range t.Keys {
 		if c.Typ == "VARCHAR" {
@@ -290,7 +331,7 @@ func (g *genCtx) genCond(t *Table, own func(i int) bool) *Cond {
 	}
 	intCols := []int{}
 	for i, c := range t.Cols {
-		if c.Typ == "INT" || c.Typ == "TINYINT" {
+		if _, bounded := intBounds[c.Typ]; bounded {
 			intCols = append(intCols, i)
 		}
 	}
@@ -341,7 +382,11 @@ func (g *genCtx) genStmt(t *Table, own func(i int) bool, explicit bool) Stmt {
 		}
 		return row
 	}
-	switch k := r.Intn(10); {
+	k := r.Intn(10)
+	if len(t.Keys) == 2 && t.Keys[0].Typ == "VARCHAR" && r.Chance(1, 2) {
+		k = 5 // UPDATE: images holding several rows with composite character keys
+	}
+	switch {
 	case k < 3: // INSERT
 		s := Stmt{Kind: "insert", Table: t.Name}
 		withKey := !(auto && r.Chance(2, 3))
@@ -368,7 +413,7 @@ func (g *genCtx) genStmt(t *Table, own func(i int) bool, explicit bool) Stmt {
 			}
 			seen[ci] = true
 			c := t.Cols[ci]
-			if (c.Typ == "INT" || c.Typ == "BIGINT") && r.Chance(1, 3) {
+			if c.Typ == "BIGINT" && r.Chance(1, 3) {
 				n := int64(1 + r.Intn(5))
 				s.Set = append(s.Set, SetItem{Col: ci, Op: "inc", N: n})
 				sets = append(sets, fmt.Sprintf("%s = %s + %d", c.Name, c.Name, n))
@@ -463,6 +508,9 @@ func genPlan(r *hutil.Rng, stream string, seed uint64, idx int) *Plan {
 		}
 		g.tables = append(g.tables, t)
 		n := r.Intn(7)
+		if len(t.Keys) == 2 && t.Keys[0].Typ == "VARCHAR" && n < 2 {
+			n = 2 + r.Intn(5) // the colliding key pairs are neighbours
+		}
 		g.nrows[t.Name], g.fresh[t.Name] = n, n+10
 		var rows []Row
 		for k := 1; k <= n; k++ {
@@ -480,6 +528,15 @@ func genPlan(r *hutil.Rng, stream string, seed uint64, idx int) *Plan {
 		}
 	}
 	p.Tables = g.tables
+	for _, t := range g.tables {
+		if len(t.Keys) == 2 && t.Keys[0].Typ == "VARCHAR" {
+			// composite character keys: exercise the validation's row matching on images that hold many rows
+			withForeign, g.ranges = false, true
+			if r.Chance(3, 4) {
+				dv = true
+			}
+		}
+	}
 	// odd initial keys belong to the transaction, even ones to foreign writers (c01); c09/c10: everything is the transaction's
 	own := func(i int) bool { return !withForeign || i%2 == 1 || i > 6 }
 	nb := 1 + r.Intn(3)
